@@ -1,10 +1,10 @@
 #!/bin/bash
-# run every claimed check (quick tier by default) and print its summary line + exit code
+# run every claimed check (quick tier by default) and print its exit code + summary line
 T=${1:-quick}
 cd /verif
 IDS=$(python3 -c "import json;print(' '.join(c['property_id'] for c in json.load(open('MANIFEST.json'))['checks']))")
 for p in $IDS; do
-  ( out=$(timeout 1800 ./check $p --tier $T 2>/dev/null | grep -E "VIOLATION|tier=" | tail -3); echo "$p rc=$? :: $out" ) &
+  ( out=$(timeout 1800 ./check $p --tier $T 2>/dev/null); rc=$?; echo "$p rc=$rc :: $(echo "$out" | grep -E "VIOLATION|tier=" | tail -3)" ) &
   while [ $(jobs -r | wc -l) -ge 3 ]; do sleep 1; done
 done
 wait
